@@ -11,7 +11,7 @@ git diff --stat -- asmjit db tools | tail -1
 cmake --build $W/_build -j16 >/dev/null 2>&1
 T=$(ctest --test-dir $W/_build -j8 --timeout 900 2>&1 | grep "tests passed" || true)
 cd $W/_seed
-EXTRA=$(head -5 demo.cpp | grep -o "\-D[A-Z_]*\|-lpthread\|-pthread\|-ldl\|-O[0-9]\|-m[a-z0-9.]*" | tr '\n' ' ')
+EXTRA=$(head -5 demo.cpp | grep -o "\-D[A-Z_]*\|-lpthread\|-pthread\|-ldl\|-O[0-9]\|-mavx[0-9a-z]*\|-msse[0-9.]*\|-mfma\|-mbmi2\?\|-march=[a-z0-9-]*" | tr '\n' ' ')
 g++ -std=c++17 -I$W demo.cpp -L$W/_build -lasmjit -Wl,-rpath,$W/_build -lpthread $EXTRA -o demo_changed 2>/dev/null || echo "demo build (changed) needs a custom command"
 g++ -std=c++17 -I/repo demo.cpp -L/repo/_build -lasmjit -Wl,-rpath,/repo/_build -lpthread $EXTRA -o demo_orig 2>/dev/null || echo "demo build (orig) needs a custom command"
 set +e
